@@ -24,11 +24,16 @@ ACCESSOR_GROUPS = ["corners", "halfedges", "faces", "vertices", "border", "ids"]
 
 
 class SurfaceOracle:
-    def __init__(self, nv, faces, declared_edges=()):
+    def __init__(self, nv, faces, declared_edges=(), mesh_edges=None):
         self.nv = nv
         self.faces = [tuple(int(v) for v in f) for f in faces]
         self.he = oracle.half_edges(self.faces)
         self.edges = oracle.surface_edges(self.faces, declared_edges)
+        self.canonical_edges = list(self.edges)
+        if mesh_edges is not None:
+            # the order of the edge list is not prescribed here (e.g. results of subdivision): identifiers follow the mesh's own
+            # list, which is checked to be 'every face side exactly once, low index first' as a set
+            self.edges = [tuple(int(x) for x in e) for e in mesh_edges]
         self.edge_id = {e: i for i, e in enumerate(self.edges)}
         self.first_corner = []
         c = 0
@@ -221,7 +226,8 @@ def _border(sx, mesh, conn, O, tag):
 
 
 def _ids(sx, mesh, conn, O, tag):
-    good = [tuple(int(x) for x in e) for e in mesh.edges] == O.edges
+    got = [tuple(int(x) for x in e) for e in mesh.edges]
+    good = got == O.edges and sorted(got) == sorted(O.canonical_edges) and len(set(got)) == len(got)
     sx.check(good, "edge list is every face side once, low index first" + tag, detail=str([tuple(e) for e in mesh.edges]))
     good = True
     for u in range(O.nv):
@@ -234,8 +240,8 @@ def _ids(sx, mesh, conn, O, tag):
     sx.check(bool(good), "edge and face identifiers agree with the element lists" + tag)
 
 
-def check_all(sx, mesh, nv, faces, sorted_mode=True, tag="", order=None, declared_edges=()):
-    O = SurfaceOracle(nv, faces, declared_edges)
+def check_all(sx, mesh, nv, faces, sorted_mode=True, tag="", order=None, declared_edges=(), any_edge_order=False):
+    O = SurfaceOracle(nv, faces, declared_edges, mesh_edges=mesh.edges if any_edge_order else None)
     for g in (order or ACCESSOR_GROUPS):
         if not check_group(sx, mesh, O, g, sorted_mode, tag):
             return False
